@@ -69,6 +69,11 @@ class VFSZip(VFS_Real):
 
     def init_cache(self) -> None:
         cache_filename = self.get_cache_filename()
+        if not self.chain.iswritable(cache_filename):
+            # We never wrote a cache there (an archive inside an archive),
+            # and chain.getfspath() would not be a real path: don't look.
+            self.populate_cache()
+            return
         zipfile_mtime = self.chain.stat(self.zipfilename)[stat.ST_MTIME]
         try:
             cache_mtime = self.chain.stat(cache_filename)[stat.ST_MTIME]
